@@ -11,30 +11,32 @@ CONSTANTS MaxRows, MaxBurst, MaxSteps, Touch,      \* bounds of the machine
 (* aircraft arrives (after the frame, before expiry).                      *)
 (***************************************************************************)
 VARIABLES s, rows, det, phase, burst, hist, steps,
-          total, most, adds          \* statistics tab: aircraft ever added, largest simultaneous count; adds = history of arrivals
-vars == <<s, rows, det, phase, burst, hist, steps, total, most, adds>>
-View == <<s, rows, det, phase, burst, steps, total, most, adds>>
+          total, most, adds,         \* statistics tab: aircraft ever added, largest simultaneous count; adds = history of arrivals
+          drawn                      \* the tab that was drawn last: the mouse handler works with the geometry of that draw
+vars == <<s, rows, det, phase, burst, hist, steps, total, most, adds, drawn>>
+View == <<s, rows, det, phase, burst, steps, total, most, adds, drawn>>
 
 RX == [lat |-> 52000000, lon |-> 4000000]
 PosOf(i) == [lat |-> 52100000 + 10000 * i, lon |-> 4200000]
-Btn == IF Touch /\ s.tab \in {0, 1} THEN BtnOn ELSE << >>
-LeftEdge == IF Touch /\ s.tab \in {0, 1} THEN 11 ELSE 1
+\* (a key may have changed the tab since: the touchscreen buttons exist where they were drawn, not where the state points)
+Btn == IF Touch /\ drawn \in {0, 1} THEN BtnOn ELSE << >>
+LeftEdge == IF Touch /\ drawn \in {0, 1} THEN 11 ELSE 1
 
 Init == /\ s = Init0 /\ rows = 0 /\ det = << >> /\ phase = "draw" /\ burst = 0 /\ hist = << >> /\ steps = 0
-        /\ total = 0 /\ most = 0 /\ adds = 0
+        /\ total = 0 /\ most = 0 /\ adds = 0 /\ drawn = 0
 
 Alive == ~s.panicked /\ ~s.quit /\ steps < MaxSteps
 Step(tag) == /\ steps' = steps + 1 /\ hist' = Append(hist, tag)
 
 Draw == /\ Alive /\ phase = "draw"
-        /\ s' = DrawStep(s, rows) /\ phase' = "events" /\ burst' = 0
+        /\ s' = DrawStep(s, rows) /\ phase' = "events" /\ burst' = 0 /\ drawn' = s.tab
         /\ Step(<<"draw">>) /\ UNCHANGED <<rows, det, total, most, adds>>
 Key(i) == /\ Alive /\ phase = "events" /\ burst < MaxBurst
           /\ s' = KeyStep(s, KeysA[i], FALSE, rows, LAMBDA k : det[k + 1], PosOf, RX)
-          /\ burst' = burst + 1 /\ Step(<<"key", KeysA[i]>>) /\ UNCHANGED <<rows, det, phase, total, most, adds>>
+          /\ burst' = burst + 1 /\ Step(<<"key", KeysA[i]>>) /\ UNCHANGED <<rows, det, phase, total, most, adds, drawn>>
 Mouse(i) == /\ Alive /\ phase = "events" /\ burst < MaxBurst
             /\ s' = MouseStep(s, MouseA[i][1], MouseA[i][2], MouseA[i][3], Btn, LeftEdge, RX)
-            /\ burst' = burst + 1 /\ Step(<<"mouse", MouseA[i][1], MouseA[i][2], MouseA[i][3]>>) /\ UNCHANGED <<rows, det, phase, total, most, adds>>
+            /\ burst' = burst + 1 /\ Step(<<"mouse", MouseA[i][1], MouseA[i][2], MouseA[i][3]>>) /\ UNCHANGED <<rows, det, phase, total, most, adds, drawn>>
 \* the loop goes round: traffic may arrive / aircraft may expire before the next draw
 Loop == /\ Alive /\ phase = "events"
         /\ \/ UNCHANGED <<rows, det, total, most, adds>> /\ Step(<<"loop">>)
@@ -43,7 +45,7 @@ Loop == /\ Alive /\ phase = "events"
               \* Stats::update runs after the frame was handed to the tracker and before expiry
               /\ total' = total + 1 /\ adds' = adds + 1 /\ most' = IF rows + 1 > most THEN rows + 1 ELSE most
            \/ /\ rows > 0 /\ rows' = 0 /\ det' = << >> /\ Step(<<"expire">>) /\ UNCHANGED <<total, most, adds>>
-        /\ phase' = "draw" /\ UNCHANGED <<s, burst>>
+        /\ phase' = "draw" /\ UNCHANGED <<s, burst, drawn>>
 
 Next == Draw \/ (\E i \in 1..Len(KeysA) : Key(i)) \/ (\E i \in 1..Len(MouseA) : Mouse(i)) \/ Loop
 Spec == Init /\ [][Next]_vars
